@@ -79,7 +79,55 @@ def _c16_nontrivial(r):
     return False
 
 
+def _c01_nontrivial(r):
+    # the decoder got past the header: a message with at least one entry, or an error on
+    # a datagram that has at least a full header
+    if r["impl"].startswith("ok"):
+        t = r["impl"].split(" ")
+        return len(t) > 8
+    return len(r["op"].split(" ")[1]) >= 24 + 2
+
+
+def _c01_extra(recs):
+    peak = us = 0
+    big = 0
+    for r in recs:
+        m = re.search(r"peak=(\d+) us=(\d+) len=(\d+)", r.get("meas", ""))
+        if m:
+            peak = max(peak, int(m.group(1)))
+            us = max(us, int(m.group(2)))
+            big += int(m.group(3)) >= 1000
+    return dict(max_peak_alloc_bytes=peak, max_decode_micros=us, datagrams_of_1000_bytes_or_more=big)
+
+
+mutators["decode"] = _mutate_hex_op
+
 CONFIG = {
+    "C01": dict(
+        modules=["Mdns.Props.C01"],
+        model_files="Mdns/Model/Decode.lean",
+        nontrivial=_c01_nontrivial,
+        extra_evidence=_c01_extra,
+        rule="every string over {00,01,3F,40,C0,0C,'a'} up to length 4 (quick) / 6 (thorough) after a query header "
+             "with one question and after a response header with one answer (exhaustive); then from VERIF_SEED: "
+             "uniformly random bytes (lengths 0..9000), packets from the crate's own encoder unmodified / mutated / "
+             "truncated, grammar packets (arbitrary counts, RDLENGTH exact/+-1/0/65535, known and unknown types, "
+             "HINFO/NSEC corner cases, pointer graphs forward/self/cyclic/into RDATA, reserved label prefixes) in a "
+             "clean and a malformed stream, and 9000-byte pointer-chain amplification shapes. Each decode runs in a "
+             "worker subprocess under a 4 s watchdog with catch_unwind and a counting allocator. Non-trivial = decoded "
+             "message with at least one entry, or an error on a datagram with a complete header. Distinct = distinct datagrams.",
+        level_text="No panic, bounded read_name loop (<= 255 iterations, <= 127 pointers), names <= 255 bytes, entry counts and "
+                   "copied bytes linear in the datagram length, record spans inside the datagram and TTL 0 -> 1 are Lean theorems "
+                   "for every byte array; termination is checked by Lean at definition time. The model is compared with "
+                   "DnsIncoming::new of the working tree on every run and the theorems' conclusions are evaluated on the real output.",
+        level_note="Trusted: Lean kernel; axioms propext, Classical.choice, Quot.sound only; hand-written model tied to the code by "
+                   "differential testing of this run's inputs; wall-clock and allocation are measured (watchdog, counting allocator), not proved.",
+        assumptions=[
+            "wall-clock time and allocator peaks are measured on the real decoder (watchdog 4 s, peak <= 256*len + 64 KiB), "
+            "not proved; the theorems bound the model's loop iterations, entry counts and copied bytes",
+            "UTF-8 validation is the model's `validUtf8` (RFC 3629), compared with core::str::from_utf8 on every generated label",
+        ],
+    ),
     "C16": dict(
         modules=["Mdns.Props.C16"],
         model_files="Mdns/Model/Txt.lean",
@@ -89,9 +137,19 @@ CONFIG = {
              "duplicate and case-variant keys, a separate share of invalid keys; arbitrary and mutated TXT bytes "
              "for decoding; case-insensitive lookups. Non-trivial = creation accepted with at least one "
              "property / decoding yields at least one property / lookup hits. Distinct = distinct op lines.",
+        level_text="Round trip, refusal of unrepresentable properties, decoder totality/in-bounds and case-insensitive first-key-wins "
+                   "lookup are Lean theorems for all property lists and all byte strings; the model is compared with ServiceInfo::new/"
+                   "encode_txt/decode_txt/decode_txt_unique/TxtProperties::get of the working tree on every run and the theorems' "
+                   "conclusions are evaluated on the real outputs.",
+        level_note="Trusted: Lean kernel; axioms propext, Classical.choice, Quot.sound only; the hand-written model is tied to the code by "
+                   "differential testing of this run's generated inputs (not by proof); lower-casing modelled on ASCII; HashMap "
+                   "storage order read from the implementation.",
         assumptions=[
             "lower-casing is modelled on ASCII only; decode_txt_unique is compared only on inputs whose keys are ASCII",
             "the storage order of HashMap inputs is read from the implementation (hash seed is an environment input)",
         ],
     ),
 }
+
+# reasons for properties that are deliberately not claimed (default text in tools/mkmanifest.py)
+NOT_CLAIMED = {}
